@@ -6,6 +6,7 @@ import (
 	"fmt"
 	"log/slog"
 	"regexp"
+	"sync"
 	"testing"
 
 	"github.com/goblimey/go-ntrip/rtcm/handler"
@@ -389,7 +390,60 @@ type SibCase struct {
 	Cases []Case `json:"messages"`
 }
 
+// sharedDisplay: one decoded message, never displayed before, is displayed by several goroutines at the same
+// moment (consumers that share the decoded part); every one of them must get the whole text.
+func sharedDisplay(b enc.Base, lv slog.Level) error {
+	b.WithH = b.Type == 1006
+	frame := b.Frame()
+	var str func() string
+	var want string
+	if b.Type == 1005 {
+		m, err := type1005.GetMessage(frame, lv)
+		ref, err2 := type1005.GetMessage(frame, lv)
+		if err != nil || err2 != nil {
+			return nil
+		}
+		str, want = m.String, ref.String()
+	} else {
+		m, err := type1006.GetMessage(frame, lv)
+		ref, err2 := type1006.GetMessage(frame, lv)
+		if err != nil || err2 != nil {
+			return nil
+		}
+		str, want = m.String, ref.String()
+	}
+	const k = 4
+	texts := make([]string, k)
+	var ready, wg sync.WaitGroup
+	start := make(chan struct{})
+	for g := 0; g < k; g++ {
+		ready.Add(1)
+		wg.Add(1)
+		go func(g int) {
+			defer wg.Done()
+			ready.Done()
+			<-start
+			texts[g] = str()
+		}(g)
+	}
+	ready.Wait()
+	close(start)
+	wg.Wait()
+	for g, txt := range texts {
+		if txt != want {
+			return fmt.Errorf("a decoded type %d message displayed by %d goroutines at the same moment: goroutine %d got\n%s\n--- displayed alone ---\n%s", b.Type, k, g, txt, want)
+		}
+	}
+	return nil
+}
+
 func checkSiblings(c SibCase, o *stats.Obs) error {
+	for _, cs := range c.Cases {
+		if err := sharedDisplay(cs.Msg, level(cs.Debug)); err != nil {
+			o.Key = "shared-message-displayed-concurrently"
+			return err
+		}
+	}
 	// First the bare history: the frames decoded back to back, nothing else in between (the full check of
 	// each message below decodes other frames of its own), through the typed decoder and through one handler.
 	for pass := 0; pass < 2; pass++ {
